@@ -127,8 +127,41 @@ class Holder:
     pass
 
 
+# subclasses of the standard wrapper types (user code does subclass them)
+class SubClassmethod(classmethod):
+    pass
+
+
+class SubStaticmethod(staticmethod):
+    pass
+
+
+class SubPartial(functools.partial):
+    pass
+
+
+class SubPartialmethod(functools.partialmethod):
+    pass
+
+
+class SubProperty(property):
+    pass
+
+
+class SubCachedProperty(functools.cached_property):
+    pass
+
+
+def decoy(*a, **k):        # never called, never decorated
+    return 'decoy'
+
+
+# keyword arguments whose names coincide with parameter names used inside the profiler
+KW = dict(func=1, self=2, args=3, kwds=4, cmd=5, globals=6, locals=7, wrapper=8)
+
+
 class Ctx:
-    def __init__(self, caseno, deco='lp', same_def=False):
+    def __init__(self, caseno, deco='lp', same_def=False, subclass=False, stray=False):
         from line_profiler import LineProfiler
         self.prof = LineProfiler()
         if deco == 'global':
@@ -140,6 +173,8 @@ class Ctx:
         else:
             self.deco = self.prof
         self.same_def = same_def
+        self.subclass = subclass
+        self.stray = stray
         self.raising = False
         self.hook0 = None
         self.factories = {}
@@ -187,6 +222,11 @@ class Ctx:
             exec(compile(SRC[k], fname, 'exec'), ns)
             f = ns['f']
         self.fname[i] = fname
+        if self.stray:
+            # the `wrapper.func = fn` idiom: a plain function that merely CARRIES attributes named like
+            # those of partial / bound method / property objects
+            for a in ('func', '__func__', 'fget', 'fset', 'fdel', 'args', 'keywords', '__self__'):
+                setattr(f, a, decoy if a not in ('args', 'keywords') else (() if a == 'args' else {}))
         self.leaves[id(f)] = (i, k)
         self.byid[i] = f
         self.kinds[i] = k
@@ -200,26 +240,32 @@ class Ctx:
             return self.leaf(t[1], t[2])
         if tag == 'wr':
             return self.deco(self.leaf(t[1], t[2]))
+        sub = self.subclass
         if tag == 'cm':
-            return classmethod(self.build(t[1]))
+            return (SubClassmethod if sub else classmethod)(self.build(t[1]))
         if tag == 'sm':
-            return staticmethod(self.build(t[1]))
+            return (SubStaticmethod if sub else staticmethod)(self.build(t[1]))
         if tag == 'bd':
             return types.MethodType(self.build(t[1]), self.holder)
         if tag == 'pt':
-            return functools.partial(self.build(t[1]), 'p')
+            return (SubPartial if sub else functools.partial)(self.build(t[1]), 'p')
         if tag == 'pm':
-            return functools.partialmethod(self.build(t[1]), 'pm')
+            return (SubPartialmethod if sub else functools.partialmethod)(self.build(t[1]), 'pm')
         if tag == 'pr':
-            return property(*[None if x is None else self.build(x) for x in t[1:4]])
+            return (SubProperty if sub else property)(*[None if x is None else self.build(x) for x in t[1:4]])
         if tag == 'cp':
-            return functools.cached_property(self.build(t[1]))
+            return (SubCachedProperty if sub else functools.cached_property)(self.build(t[1]))
         raise ValueError(t)
 
     def marked(self, o):
         return getattr(o, '__line_profiler_id__', None) == id(self.prof)
 
     def describe(self, o):
+        if self.subclass and isinstance(o, (classmethod, staticmethod, functools.partial, functools.partialmethod,
+                                            property, functools.cached_property)) \
+                and type(o) in (classmethod, staticmethod, functools.partial, functools.partialmethod, property,
+                                functools.cached_property):
+            return [95]           # the subclass was lost when the wrapper object was rebuilt
         if isinstance(o, classmethod):
             return [3] + self.describe(o.__func__)
         if isinstance(o, staticmethod):
@@ -381,20 +427,21 @@ def while_other_thread_inside(ctx, fn):
         raise box[0]
 
 
-def perform(ctx, obj, plan, threads=True):
+def perform(ctx, obj, plan, threads=True, C=None):
     """Use `obj` through every access of the plan; returns the runs of each.  threads=False: the
     accesses that involve a second thread are made plainly in this thread (same expected outcome)."""
-    C = type('C', (), {'x': obj})
+    if C is None:
+        C = type('C', (), {'x': obj})
     out = []
     state = {}
 
     def act(how, mode):
         if how == 'call':
-            consume(obj('a'), mode)
+            consume(obj('a', **KW), mode)
         elif how == 'inscall':
-            consume(C().x('a'), mode)
+            consume(C().x('a', **KW), mode)
         elif how == 'clscall':
-            consume(C.x('a'), mode)
+            consume(C.x('a', **KW), mode)
         elif how == 'get':
             consume(C().x, mode)
         elif how == 'set':
@@ -466,7 +513,8 @@ def enc_runs(runs_per_access):
 
 def run_case(caseno, case):
     import sys
-    ctx = Ctx(caseno, case.get('deco', 'lp'), bool(case.get('same_def')))
+    ctx = Ctx(caseno, case.get('deco', 'lp'), bool(case.get('same_def')), bool(case.get('subclass')), bool(case.get('stray')))
+    put_back = bool(case.get('put_back'))
     t = case['term']
     res = dict(err=None)
     plan = plan_for(t)
@@ -488,19 +536,26 @@ def run_case(caseno, case):
             main_ids = ctx.order[len(sib_ids):]
             res['regs0'] = ctx.func_ids()
             res['leaf_ids'] = list(main_ids)
-            res['orig'] = enc_runs(perform(ctx, obj, plan, threads=False))
-            p1 = ctx.deco(obj)
+            # put_back: the object is a member of an EXISTING class; the member is looked up in the class
+            # dict, decorated and put back with setattr (no __set_name__ happens again)
+            C0 = type('C', (), {'x': obj}) if put_back else None
+            res['orig'] = enc_runs(perform(ctx, obj, plan, threads=False, C=C0))
+            p1 = ctx.deco(vars(C0)['x'] if put_back else obj)
+            if put_back:
+                setattr(C0, 'x', p1)
             res['funcs1'] = ctx.func_ids()
             res['shape1'] = ctx.describe(p1)
-            p2 = ctx.deco(p1)
+            p2 = ctx.deco(vars(C0)['x'] if put_back else p1)
             res['funcs2'] = ctx.func_ids()
             res['shape2'] = ctx.describe(p2)
             res['same_object'] = p2 is p1
             h0 = ctx.hits()
             for i in set(ctx.order):
                 ctx.execs[i] = [0, 0, 0]
-            res['runs1'] = enc_runs(perform(ctx, p1, plan))
-            res['runs2'] = enc_runs(perform(ctx, p2, plan, threads=False))
+            res['runs1'] = enc_runs(perform(ctx, p1, plan, C=C0))
+            if put_back:
+                setattr(C0, 'x', p2)
+            res['runs2'] = enc_runs(perform(ctx, p2, plan, threads=False, C=C0))
             res['sib_runs'] = [enc_runs(perform(ctx, w, first)) for w in kept]
             h1 = ctx.hits()
             res['hits'], res['execs_all'], res['execs'] = hits_execs(ctx, main_ids, h0, h1)
